@@ -255,6 +255,71 @@ def run_tool(chk, name, fn, paths, plan, serial=False, flavour="sched", workers=
     return res
 
 
+def real_pool_phase(chk, D, names, refs):
+    """Every tool once more with GENUINE pools in a child process that can be abandoned: as they come, and with the pool's
+    task-handler thread slower than its workers (PoolLife.tla).  The result must be the reference run's; not coming back is
+    a violation (a result that depends on the schedule in the worst way)."""
+    import subprocess
+    from concurrent.futures import ThreadPoolExecutor
+    budget = 40
+    jobs = []
+    for name in names:
+        for n in ((2,) if chk.tier == "quick" else (1, 2, 3, 4)):
+            if (name, n) not in refs:
+                continue
+            for mode in ("as-it-comes", "slow-handler"):
+                if chk.tier == "quick" and mode == "as-it-comes" and not name.startswith(("reader", "chk2plt", "chef")):
+                    continue
+                jobs.append((name, n, mode))
+
+    def one(job):
+        name, n, mode = job
+        cmd = [sys.executable, os.path.join(os.path.dirname(os.path.abspath(__file__)), "c12_real.py"), name, str(n), str(refs[(name, n)][1]), str(budget)]
+        if mode == "slow-handler":
+            cmd.append("slow-handler")
+        env = dict(os.environ)
+        env["TMPDIR"] = chk.scratch
+        try:
+            p = subprocess.run(cmd, stdout=subprocess.PIPE, stderr=subprocess.PIPE, text=True, timeout=budget + 90, env=env)
+            lines = [ln for ln in p.stdout.split("\n") if ln.startswith("{")]
+            return job, (json.loads(lines[-1]) if lines else {"machinery": p.stderr[-500:]})
+        except subprocess.TimeoutExpired:
+            return job, {"hang": True}
+    with ThreadPoolExecutor(max_workers=6) as ex:
+        results = list(ex.map(one, jobs))
+    for (name, n, mode), rec in results:
+        if "machinery" in rec:
+            raise core.MachineryError("real-pool child of %s produced no record: %s" % (name, rec["machinery"]))
+        sig = util.sig_str(name, n, "real-pool", mode)
+        chk.executed(sig, True, sample={"tool": name, "n": n, "flavour": "real pool, " + mode})
+        chk.traces += 1
+        ref = json.loads(core.jdump(refs[(name, n)][0]))
+        v = None
+        if rec.get("hang"):
+            v = "%s with %d tasks does not come back with real process pools%s (nothing within %d s)" % (
+                name, n, " when the pool's task-handler thread is slower than its workers" if mode == "slow-handler" else "", budget)
+        elif "exc" in rec:
+            v = "%s raised with real process pools: %s" % (name, rec["exc"])
+        else:
+            # paths in error messages differ between processes (scratch directories): compare with the directory names removed
+            a, b = _nopaths(ref), _nopaths(rec["res"])
+            if a != b:
+                v = "%s with %d tasks and real process pools (%s) gives another result than the reference run: %s" % (name, n, mode, core.first_diff(a, b))
+        if v:
+            chk.violation(sig, v, {"tool": name, "n": n, "real_pool": True, "mode": mode})
+
+
+def _nopaths(x):
+    import re
+    if isinstance(x, str):
+        return re.sub(r"/[^ '\n]*/(bad_[a-z]+/)", r"<dir>/\1", x)
+    if isinstance(x, list):
+        return [_nopaths(v) for v in x]
+    if isinstance(x, dict):
+        return {k: _nopaths(v) for k, v in x.items()}
+    return x
+
+
 def run(chk, replay):
     chk.rule = ("for each pool-using tool and each task count n = 1..4: every completion order of n tasks that TLC emitted "
                 "(n! orders), imposed on every pool call of the run with n tasks; signature = (tool, n, completion order, pool "
@@ -276,6 +341,7 @@ def run(chk, replay):
     if replay:
         names = [replay["scenario"]["tool"]]
     log = []
+    refs = {}
     ns = [1, 2, 3, 4] if not replay else [replay["scenario"]["n"]]
     for n in ns:
         paths = make_inputs(chk, n, chk.seed * 10 + n)
@@ -283,6 +349,7 @@ def run(chk, replay):
         for name in names:
             fn, has_serial = D[name]
             ref = run_tool(chk, name, fn, paths, {}, default="fifo", log=log)
+            refs[(name, n)] = (ref, chk.seed * 10 + n)
             if "exc" in ref:
                 chk.violation(util.sig_str(name, n, "reference"), "%s raised in the reference run: %s" % (name, ref["exc"]),
                               {"tool": name, "n": n})
@@ -322,6 +389,8 @@ def run(chk, replay):
         for k, dg in before.items():
             if alpha.tree_digest(paths[k]) != dg:
                 chk.violation(util.sig_str("inputs", n), "an input was modified by one of the runs", {"tool": "any", "n": n})
+    if not replay or replay["scenario"].get("real_pool"):
+        real_pool_phase(chk, D, names if not replay else [replay["scenario"]["tool"]], refs)
     # pool usage traces must be behaviours of Pool.tla
     tf = os.path.join(chk.scratch, "pool_trace.ndjson")
     with open(tf, "w") as f:
